@@ -80,6 +80,12 @@ def gen_plan(S, index, tier):
     if pool['X0']['via'] == 'create':
         pool['X0']['order'] = SP.gen_order(S, sp)
     models = {'X0': ModelPeptide.from_spec(sp)}
+    if S.coin(0.4):
+        # a second, unrelated peptide that lives alongside (state shared between DIFFERENT objects - a class-level
+        # scratch object, a module-level default - only shows with two of them)
+        sp2 = SP.gen_pep(S, cfg)
+        pool['Y0'] = {'kind': 'ann', 'via': S.pick(['parse', 'create']), 'spec': sp2}
+        models['Y0'] = ModelPeptide.from_spec(sp2)
     lists = {}     # caller-owned lists: handle -> (field it fits, value)
     events = []
     header.update({'mode': 'random', 'faults': faults, 'fault_free': fault_free, 'maxlen': cfg['maxlen']})
@@ -1052,11 +1058,11 @@ def _roundtrip(run, ev_i, ev, x, m):
 
 def shrink_candidates(plan):
     from sim.props.c08 import _spec_shrinks
-    sp = plan['pool']['X0']['spec']
-    for cand in _spec_shrinks(sp):
-        p2 = copy.deepcopy(plan)
-        p2['pool']['X0']['spec'] = cand
-        yield p2
+    for h0 in [k for k, v in plan['pool'].items() if v['kind'] == 'ann']:
+        for cand in _spec_shrinks(plan['pool'][h0]['spec']):
+            p2 = copy.deepcopy(plan)
+            p2['pool'][h0]['spec'] = cand
+            yield p2
     for i, ev in enumerate(plan['events']):
         if ev['act'] in ('field', 'setloc') and len(ev.get('mods') or []) > 1:
             p2 = copy.deepcopy(plan)
